@@ -381,3 +381,75 @@ def r14_10(run):
 
 
 RULES = [("R14.1", r14_1), ("R14.5", r14_5), ("R14.6", r14_6), ("R14.7", r14_7), ("R14.8", r14_8), ("R14.9", r14_9), ("R14.10", r14_10)]
+
+
+def option_overrides(ix):
+    """(writes into the resolved options outside init_options, rebindings of names that hold an option value, number of option
+    reads looked at) in the functions reachable from pipeflow"""
+    from ..callgraph import CallGraph
+    cg = CallGraph(ix)
+    funcs = [f for f in cg.reachable([ix.func("pandapipes.pipeflow.pipeflow")]).values() if f.module.startswith("pandapipes")]
+    writes, rebinds, n = [], [], 0
+    merging = set(cg.reachable([ix.func(PS + ".init_options")]))          # the merge itself and its helpers (R14.1 - R14.4 decide them)
+    for f in funcs:
+        if f.qualname in merging or f.name == "set_net_option":
+            continue
+        node = f.raw_node
+        for c in calls(node):
+            if callee_name(c) == "set_net_option" and len(c.args) >= 2:
+                writes.append((f, c, const_str(c.args[1]) or U(c.args[1])))
+        for s_ in ast.walk(node):
+            tg = s_.targets if isinstance(s_, ast.Assign) else ([s_.target] if isinstance(s_, ast.AugAssign) else [])
+            for t in tg:
+                if isinstance(t, ast.Subscript) and U(t.value).replace('"', "'") in ("net['_options']", "net._options", "options", "opts"):
+                    writes.append((f, s_, const_str(t.slice) or U(t.slice)))
+        # names that hold an option value ...
+        holds = {}
+        for s_ in ast.walk(node):
+            if isinstance(s_, ast.Assign) and len(s_.targets) == 1 and isinstance(s_.value, ast.Call) \
+                    and callee_name(s_.value) in ("get_net_option", "get_net_options"):
+                t = s_.targets[0]
+                names = [t] if isinstance(t, ast.Name) else (list(t.elts) if isinstance(t, (ast.Tuple, ast.List)) else [])
+                opts_ = [const_str(a) for a in s_.value.args[1:]]
+                for k, nm in enumerate(names):
+                    if isinstance(nm, ast.Name):
+                        n += 1
+                        holds[nm.id] = (s_, opts_[k] if k < len(opts_) else None)
+        # ... are not bound again
+        for s_ in ast.walk(node):
+            tg = []
+            if isinstance(s_, ast.Assign):
+                tg = s_.targets
+            elif isinstance(s_, (ast.AugAssign, ast.AnnAssign)):
+                tg = [s_.target]
+            for t in tg:
+                for x in ast.walk(t):
+                    if isinstance(x, ast.Name) and isinstance(x.ctx, ast.Store) and x.id in holds and holds[x.id][0] is not s_:
+                        rebinds.append((f, s_, "%s (option %s)" % (x.id, holds[x.id][1])))
+    return writes, rebinds, n
+
+
+ADAPTED_OPTIONS = {"alpha": "the damping factor is adapted by set_damping_factor when nonlinear_method is 'automatic' (documented)"}
+
+
+def r14_11(run):
+    """the option values in force during a calculation are the ones the three layers resolved: after init_options nothing reachable
+    from pipeflow writes into the resolved options -- except the damping factor, which the automatic damping adapts -- and no name that
+    holds an option value read through get_net_option(s) is bound again in its function (`if mode == 'bidirectional': nonlinear_method =
+    'constant'` overrules the value the precedence picked without leaving a trace in any layer)."""
+    ix = run.index
+    writes, rebinds, n = option_overrides(ix)
+    for f, node, key in writes:
+        run.analysed(f)
+        run.ob("%s|writes-option|%s" % (f.short, key), key in ADAPTED_OPTIONS,
+               "resolved options are not overwritten during the calculation (except %s)" % ", ".join(sorted(ADAPTED_OPTIONS)), run.where(f, node))
+    for f, node, what in rebinds:
+        run.analysed(f)
+        run.ob("%s|rebinds-option-value|%s" % (f.short, what), False,
+               "a name holding an option value is not bound to something else afterwards", run.where(f, node))
+    run.ob("option-reads-scanned", n >= 15 and not rebinds, "names bound from get_net_option(s) in functions reachable from pipeflow: %d, none bound again" % n,
+           "src/pandapipes")
+    run.floor(2)
+
+
+RULES.append(("R14.11", r14_11))
